@@ -22,9 +22,12 @@
 //!  5 side                                         PHASE_OUT                             -> phase localgen
 //!  6 side phase pn                                GET_REMOTE -> gen phase' localgen' | 9 (panic)
 //!  7 dl w pn la plen spin bufsz                   BUILD 1-RTT with A's real keys -> 0 len phase gen | 1.. as op 0
-//!  8 exp                                          B opens the last packet through decrypt_short_packet -> 0 pn body… | 1
+//!  8 exp                                          B opens the last packet through decrypt_short_packet -> 0 pn body… | 1 | 3 (connection error)
 //!  9 ty dl sl tl w pn la plen bufsz               BUILD long packet with the real Initial keys of dcid -> 0 len | …
-//! 10 exp                                          server opens it through decrypt_long_packet -> 0 kind pn body… | 1
+//! 10 exp                                          server opens it through decrypt_long_packet -> 0 kind pn body… | 1 | 3
+//! 11 r                                            the last TOY-built packet again, by a peer that holds the keys but sets the
+//!                                                 reserved bits r (masked with 0x0c / 0x18): unprotect, set bits, re-seal with
+//!                                                 the toy keys (harness code only) -> len | -1
 //! outcome of OPEN: 0 kind total pn phase spin body… | 1 perr… | 3 (connection error: reserved bits)
 //!                  | 4 (invalid pn) | 5 (decryption failure) | 6 kind (VN / Retry: not a protected packet)
 use std::{
@@ -37,7 +40,7 @@ use hproto::{Obs, Op, content};
 use qbase::{
     cid::ConnectionId,
     packet::{
-        DataHeader, KeyPhaseBit, Packet, PacketNumber, PacketWriter, SpinBit,
+        DataHeader, GetPacketNumberLength, KeyPhaseBit, Packet, PacketNumber, PacketWriter, ShortSpecificBits, SpinBit,
         decrypt::{decrypt_packet, remove_protection_of_short_packet},
         error::Error as PErr,
         header::{OneRttHeader, long},
@@ -325,12 +328,23 @@ impl Pair {
 // case state
 // ------------------------------------------------------------------------------------------
 
+/// what op 11 needs to know about the last toy-built packet
+struct ToyMeta {
+    orig: Vec<u8>,
+    off: usize,
+    pnlen: usize,
+    pn: u64,
+    kid: u64,
+    hid: u64,
+}
+
 struct St {
     cfg: Arc<Configs>,
     pair: Option<Pair>,
     last: Option<Vec<u8>>,
     last_dl: usize,
     last_dcid: Vec<u8>,
+    toy: Option<ToyMeta>,
 }
 
 impl St {
@@ -489,6 +503,8 @@ fn open(bytes: &[u8], dlrx: usize, exp: i128, toy: Option<(u64, u64)>, long_keys
             };
             let body_offset = d.offset + undecoded.size();
             match decrypt_packet(k.packet.as_ref(), pn, buf.as_mut(), body_offset) {
+                // the reserved bits of an authenticated packet (decrypt_short_packet does the same)
+                Ok(_) if ShortSpecificBits::from(buf[0]).pn_len().is_err() => Opened::ConnError,
                 Ok(n) => Opened::Accept { kind: 5, total, pn, phase: (phase == KeyPhaseBit::One) as i128, spin, body: buf[body_offset..body_offset + n].to_vec() },
                 Err(_) => Opened::Decrypt,
             }
@@ -508,6 +524,9 @@ fn print_opened(o: &mut Obs, r: Opened, exp: i128, merged: bool) {
                 o.push(0u8).push(kind).push_usize(total).push(pn).push(phase).push(spin);
             }
             o.push_bytes(&body);
+        }
+        Opened::ConnError if merged => {
+            o.push(3u8);
         }
         _ if merged => {
             o.push(1u8);
@@ -545,15 +564,41 @@ fn step(s: &mut St, op: &Op, _i: usize) -> Obs {
             match build(ty, dl, sl, tl, w, pn, la, plen, ps, bufsz, toy_keys(kid, hid), phase) {
                 Ok(b) => {
                     o.push(0u8).push_bytes(&b);
+                    let pnlen = mk_pn(w, pn, la).unwrap().size();
+                    s.toy = Some(ToyMeta { orig: b.clone(), off: b.len() - pnlen - plen - 16, pnlen, pn, kid, hid });
                     s.last = Some(b);
                     s.last_dl = dl as usize;
                 }
                 Err(c) => {
                     o.push(c);
                     s.last = None;
+                    s.toy = None;
                 }
             }
         }
+        11 => match s.toy.as_ref() {
+            Some(t) => {
+                let mut b = t.orig.clone();
+                let (hp, pk) = (ToyHp(t.hid), ToyKey(t.kid));
+                let (pre, payload) = b.split_at_mut(t.off);
+                let (pnbuf, sample) = payload.split_at_mut(4);
+                hp.decrypt_in_place(&sample[..16], &mut pre[0], pnbuf).unwrap();
+                let body_off = t.off + t.pnlen;
+                let (aad, body) = b.split_at_mut(body_off);
+                let n = pk.decrypt_in_place(t.pn, aad, body).unwrap().len();
+                aad[0] |= (op.u(0) as u8) & if aad[0] & 0x80 != 0 { 0x0c } else { 0x18 };
+                let tag = pk.encrypt_in_place(t.pn, aad, &mut body[..n]).unwrap();
+                body[n..].copy_from_slice(tag.as_ref());
+                let (pre, payload) = b.split_at_mut(t.off);
+                let (pnbuf, sample) = payload.split_at_mut(4);
+                hp.encrypt_in_place(&sample[..16], &mut pre[0], &mut pnbuf[..t.pnlen]).unwrap();
+                o.push_usize(b.len());
+                s.last = Some(b);
+            }
+            None => {
+                o.push(-1);
+            }
+        },
         1 | 4 => {
             let (dlrx, exp, kid, hid) = (op.u(0) as usize, a[1], op.u(2), op.u(3));
             let bytes = if op.tag == 1 { op.bytes_from(4) } else { s.last.clone().unwrap_or_default() };
@@ -601,6 +646,7 @@ fn step(s: &mut St, op: &Op, _i: usize) -> Obs {
             }
         }
         7 => {
+            s.toy = None;
             let (dl, w, pn, la, plen, spin, bufsz) = (op.u(0), op.u(1), op.u(2), op.u(3), op.u(4) as usize, op.u(5), op.u(6) as usize);
             let p = s.pair();
             let (hpk, pk) = p.ends[0].keys.get_local_keys().unwrap();
@@ -610,6 +656,7 @@ fn step(s: &mut St, op: &Op, _i: usize) -> Obs {
             match build(3, dl, 0, 0, w, pn, la, plen, (spin & 1) * 2, bufsz, keys, phase) {
                 Ok(b) => {
                     o.push(0u8).push_usize(b.len()).push((phase == KeyPhaseBit::One) as u8).push(g);
+                    s.toy = None;
                     s.last = Some(b);
                     s.last_dl = dl as usize;
                 }
@@ -629,12 +676,14 @@ fn step(s: &mut St, op: &Op, _i: usize) -> Obs {
             print_opened(&mut o, r, exp, true);
         }
         9 => {
+            s.toy = None;
             let (ty, dl, sl, tl, w, pn, la, plen, bufsz) = (op.u(0), op.u(1), op.u(2), op.u(3), op.u(4), op.u(5), op.u(6), op.u(7) as usize, op.u(8) as usize);
             let dcid = hproto::content_slice(0, dl);
             let keys = initial_keys(&dcid, rustls::Side::Client);
             match build(ty.min(2), dl, sl, tl, w, pn, la, plen, 0, bufsz, keys.local, KeyPhaseBit::Zero) {
                 Ok(b) => {
                     o.push(0u8).push_usize(b.len());
+                    s.toy = None;
                     s.last = Some(b);
                     s.last_dl = dl as usize;
                     s.last_dcid = dcid;
@@ -653,6 +702,9 @@ fn step(s: &mut St, op: &Op, _i: usize) -> Obs {
             match r {
                 Opened::Accept { kind, pn, body, .. } => {
                     o.push(0u8).push(kind).push(pn).push_bytes(&body);
+                }
+                Opened::ConnError => {
+                    o.push(3u8);
                 }
                 _ => {
                     o.push(1u8);
@@ -674,7 +726,7 @@ fn initial_keys(dcid: &[u8], side: rustls::Side) -> qbase::packet::keys::Keys {
 fn main() {
     let cfg = Arc::new(configs());
     hproto::run(
-        move |_| St { cfg: cfg.clone(), pair: None, last: None, last_dl: 0, last_dcid: Vec::new() },
+        move |_| St { cfg: cfg.clone(), pair: None, last: None, last_dl: 0, last_dcid: Vec::new(), toy: None },
         step,
     );
 }
